@@ -43,7 +43,7 @@ impl Property for C14Prop {
         "C14"
     }
     fn rule(&self) -> String {
-        format!("progen full profile in self-contained mode (the program is one IIFE that writes no globals; scripts, not modules), biased to cycles, closures, generators (exhausted / abandoned / closed early), class instances, Map/Set, destructuring, exceptions thrown at depth and runs that end in an uncaught error. Each program is run {} times on one interpreter with collect() after every run; oracle: gc_stats().live_objects is identical after every run from run {} on (the first {} runs absorb one-time caches), the interpreter is quiescent (H4) and call_depth() is 0 after every run. Non-trivial: the program swept >= 10 objects per run and contains >= 1 leak-prone construct (closure, generator, class, cycle, try/catch, Map/Set). Distinct = distinct program text.", REPEATS, WARMUP + 1, WARMUP)
+        format!("progen full profile in self-contained mode (the program is one IIFE that writes no globals; scripts, not modules), biased to cycles, closures, generators (exhausted / abandoned / closed early), class instances, Map/Set, destructuring, exceptions thrown at depth and runs that end in an uncaught error. Each program is run {} times on one interpreter with collect() after every run; oracle: gc_stats().live_objects is identical after every run from run {} on (the first {} runs absorb one-time caches), the interpreter is quiescent (H4) and call_depth() is 0 after every run. One case in four repeats instead a program that awaits host orders (C07's generator: values, objects, error responses, pending host promises resolved or rejected later, handlers on pending promises, pending completions across finally blocks; the host forces collections while the run is parked) with the same host answers every time: the live-object count must be constant from the same run on and a completed or failed run must leave the interpreter quiescent. Non-trivial: the program swept >= 10 objects per run and contains >= 1 leak-prone construct (closure, generator, class, cycle, try/catch, Map/Set). Distinct = distinct program text.", REPEATS, WARMUP + 1, WARMUP)
     }
     fn assumptions(&self) -> Vec<String> {
         vec!["module namespaces and interned strings are deliberately immortal and therefore outside the domain (scripts only)".into()]
@@ -52,6 +52,12 @@ impl Property for C14Prop {
         Plan { shards: 16, cases_per_shard: tier.pick(1500, 30000), tape_len: tier.pick(700, 1500), watchdog_s: tier.pick(900, 7200) }
     }
     fn generate(&self, tape: &mut Tape, ctx: &Ctx) -> Value {
+        if tape.below(4) == 3 {
+            // a program that awaits host orders (C07's generator), repeated on one interpreter
+            let mut c = crate::props::c07::C07.generate(tape, ctx);
+            c["hosted"] = json!(true);
+            return c;
+        }
         let max = if ctx.tier == Tier::Quick { 14 } else { 28 };
         let mut cfg = Config::full(max);
         cfg.self_contained = true;
@@ -67,6 +73,9 @@ impl Property for C14Prop {
         json!({"src": src, "tags": p.tags, "excluded": p.excluded})
     }
     fn execute(&self, case: &Value, _ctx: &mut Ctx) -> Exec {
+        if case["host_src"].is_string() {
+            return execute_hosted(case);
+        }
         let src = case["src"].as_str().unwrap_or("").to_string();
         let tags: Vec<String> = case["tags"].as_array().map(|a| a.iter().filter_map(|x| x.as_str().map(|s| s.to_string())).collect()).unwrap_or_default();
         let mut counters: Vec<(String, u64)> = vec![];
@@ -158,4 +167,96 @@ impl Property for C14Prop {
         e.observed = observed;
         e
     }
+}
+
+/// The repeated program awaits host orders (values, objects, errors, pending host promises resolved or
+/// rejected later, host-forced collections while parked): everything a finished run allocated - settled
+/// promises, their reactions, order payloads and responses, suspended frames - must be reclaimed.
+fn execute_hosted(case: &Value) -> Exec {
+    use crate::props::c07::{drive_host, kind_of, Kind};
+    use std::collections::BTreeMap;
+    let src = case["host_src"].as_str().unwrap_or("").to_string();
+    let kinds: BTreeMap<u64, Kind> = case["kinds"].as_object().map(|m| m.iter().map(|(k, v)| (k.parse().unwrap_or(0), kind_of(v))).collect()).unwrap_or_default();
+    let sched: Vec<u64> = case["schedules"][0].as_array().map(|a| a.iter().map(|x| x.as_u64().unwrap_or(0)).collect()).unwrap_or_else(|| vec![0]);
+    let mut tags: Vec<String> = case["tags"].as_array().map(|a| a.iter().filter_map(|x| x.as_str().map(|s| s.to_string())).collect()).unwrap_or_default();
+    tags.push("hosted-program".into());
+    reset_hooks();
+    let log = Rc::new(RefCell::new(Vec::new()));
+    let r = guarded(|| {
+        let mut interp = new_interp(&log);
+        let mut live: Vec<usize> = vec![];
+        let mut ends: Vec<String> = vec![];
+        let mut quiesc: Vec<String> = vec![];
+        let mut susp = 0u64;
+        for _ in 0..REPEATS {
+            tsrun::verif_hooks::vm_instr_set_limit(50_000_000);
+            tsrun::verif_hooks::vm_instr_reset();
+            let end = drive_host(&mut interp, &src, None, &kinds, &sched, &mut susp);
+            tsrun::verif_hooks::vm_instr_set_limit(0);
+            log.borrow_mut().clear();
+            interp.collect();
+            live.push(interp.gc_stats().live_objects);
+            let q = interp.verif_quiescence();
+            let mut bad = vec![];
+            if interp.call_depth() != 0 {
+                bad.push(format!("call_depth={}", interp.call_depth()));
+            }
+            if !q.env_is_global {
+                bad.push("env-not-global".to_string());
+            }
+            if q.env_guards != 0 {
+                bad.push(format!("env_guards={}", q.env_guards));
+            }
+            if q.active_vm {
+                bad.push("active_vm".to_string());
+            }
+            if q.wait_contexts != 0 || q.suspended_for_order || q.pending_orders != 0 {
+                bad.push("async-leftovers".to_string());
+            }
+            quiesc.push(bad.join(","));
+            ends.push(end);
+        }
+        (live, ends, quiesc, susp)
+    });
+    tsrun::verif_hooks::vm_instr_set_limit(0);
+    let (live, ends, quiesc, susp) = match r {
+        Ok(x) => x,
+        Err(p) => {
+            if p.contains("verif: vm work limit") {
+                return Exec::discard("budget");
+            }
+            return Exec::discard(format!("panic (C01/C06 business): {}", p.chars().take(80).collect::<String>()));
+        }
+    };
+    if ends.iter().any(|e| e == "budget") {
+        return Exec::discard("budget");
+    }
+    let observed = json!({"live_objects_after_each_run": live, "ends": ends.first(), "quiescence": quiesc, "suspensions": susp});
+    if ends.iter().skip(WARMUP).any(|e| Some(e) != ends.get(WARMUP)) {
+        let mut e = Exec::fail("c14:hosted-ends-differ", format!("the same program with the same host answers ends differently on repetition: {:?}", ends));
+        e.observed = observed;
+        return e.with_tags(tags);
+    }
+    let steady: Vec<usize> = live.iter().skip(WARMUP).cloned().collect();
+    if steady.windows(2).any(|w| w[0] != w[1]) {
+        let delta = steady.last().unwrap_or(&0).wrapping_sub(*steady.first().unwrap_or(&0)) as i64;
+        let mut e = Exec::fail(
+            format!("c14:hosted-live-objects-grow per-run-delta={}", if steady.len() > 1 { delta / (steady.len() as i64 - 1) } else { 0 }),
+            format!("live objects after collect() are not constant over repeated runs of a program that awaits host orders: {:?}", live),
+        );
+        e.observed = observed;
+        return e.with_tags(tags);
+    }
+    // a run that ended (complete / error) must leave nothing behind; a run that ended stuck is judged by the count only
+    if ends.first().map(|e| e.starts_with("complete") || e.starts_with("error")).unwrap_or(false) {
+        if let Some(q) = quiesc.iter().find(|q| !q.is_empty()) {
+            let mut e = Exec::fail(format!("c14:hosted-not-quiescent {}", q), format!("interpreter not quiescent after a finished run: {:?}", quiesc));
+            e.observed = observed;
+            return e.with_tags(tags);
+        }
+    }
+    let mut e = Exec::pass(susp >= REPEATS as u64);
+    e.tags = tags;
+    e.observed = observed;
+    e
 }
